@@ -17,8 +17,7 @@ package cmd
 //@   requires client != nil
 
 //@ func addCmd.RunE
-//@   requires clientWF()
-//@   requires [args] forall i int :: 0 <= i && i < len(args) ==> true
+//@   requires clientWF() && cmd != nil
 
 //@ func branchCmd.PreRunE
 //@   returns err
@@ -26,8 +25,7 @@ package cmd
 //@   requires client != nil
 
 //@ func branchCmd.RunE
-//@   requires clientWF()
-//@   requires [args] forall i int :: 0 <= i && i < len(args) ==> true
+//@   requires clientWF() && cmd != nil
 
 //@ func catFileCmd.PreRunE
 //@   returns err
@@ -35,8 +33,7 @@ package cmd
 //@   requires client != nil
 
 //@ func catFileCmd.RunE
-//@   requires clientWF()
-//@   requires [args] forall i int :: 0 <= i && i < len(args) ==> true
+//@   requires clientWF() && cmd != nil
 
 //@ func commitCmd.PreRunE
 //@   returns err
@@ -44,8 +41,7 @@ package cmd
 //@   requires client != nil
 
 //@ func commitCmd.RunE
-//@   requires clientWF()
-//@   requires [args] forall i int :: 0 <= i && i < len(args) ==> true
+//@   requires clientWF() && cmd != nil
 
 //@ func configCmd.PreRunE
 //@   returns err
@@ -53,8 +49,7 @@ package cmd
 //@   requires client != nil
 
 //@ func configCmd.RunE
-//@   requires clientWF()
-//@   requires [args] forall i int :: 0 <= i && i < len(args) ==> true
+//@   requires clientWF() && cmd != nil
 
 //@ func hashObjectCmd.PreRunE
 //@   returns err
@@ -62,8 +57,7 @@ package cmd
 //@   requires client != nil
 
 //@ func hashObjectCmd.RunE
-//@   requires clientWF()
-//@   requires [args] forall i int :: 0 <= i && i < len(args) ==> true
+//@   requires clientWF() && cmd != nil
 
 //@ func logCmd.PreRunE
 //@   returns err
@@ -71,8 +65,7 @@ package cmd
 //@   requires client != nil
 
 //@ func logCmd.RunE
-//@   requires clientWF()
-//@   requires [args] forall i int :: 0 <= i && i < len(args) ==> true
+//@   requires clientWF() && cmd != nil
 
 //@ func lsFilesCmd.PreRunE
 //@   returns err
@@ -80,8 +73,7 @@ package cmd
 //@   requires client != nil
 
 //@ func lsFilesCmd.Run
-//@   requires clientWF()
-//@   requires [args] forall i int :: 0 <= i && i < len(args) ==> true
+//@   requires clientWF() && cmd != nil
 
 //@ func reflogCmd.PreRunE
 //@   returns err
@@ -89,8 +81,7 @@ package cmd
 //@   requires client != nil
 
 //@ func reflogCmd.RunE
-//@   requires clientWF()
-//@   requires [args] forall i int :: 0 <= i && i < len(args) ==> true
+//@   requires clientWF() && cmd != nil
 
 //@ func resetCmd.PreRunE
 //@   returns err
@@ -98,8 +89,7 @@ package cmd
 //@   requires client != nil
 
 //@ func resetCmd.RunE
-//@   requires clientWF()
-//@   requires [args] forall i int :: 0 <= i && i < len(args) ==> true
+//@   requires clientWF() && cmd != nil
 
 //@ func restoreCmd.PreRunE
 //@   returns err
@@ -107,8 +97,7 @@ package cmd
 //@   requires client != nil
 
 //@ func restoreCmd.RunE
-//@   requires clientWF()
-//@   requires [args] forall i int :: 0 <= i && i < len(args) ==> true
+//@   requires clientWF() && cmd != nil
 
 //@ func revParseCmd.PreRunE
 //@   returns err
@@ -116,8 +105,7 @@ package cmd
 //@   requires client != nil
 
 //@ func revParseCmd.RunE
-//@   requires clientWF()
-//@   requires [args] forall i int :: 0 <= i && i < len(args) ==> true
+//@   requires clientWF() && cmd != nil
 
 //@ func rmCmd.PreRunE
 //@   returns err
@@ -125,8 +113,7 @@ package cmd
 //@   requires client != nil
 
 //@ func rmCmd.RunE
-//@   requires clientWF()
-//@   requires [args] forall i int :: 0 <= i && i < len(args) ==> true
+//@   requires clientWF() && cmd != nil
 
 //@ func statusCmd.PreRunE
 //@   returns err
@@ -134,8 +121,7 @@ package cmd
 //@   requires client != nil
 
 //@ func statusCmd.RunE
-//@   requires clientWF()
-//@   requires [args] forall i int :: 0 <= i && i < len(args) ==> true
+//@   requires clientWF() && cmd != nil
 
 //@ func switchCmd.PreRunE
 //@   returns err
@@ -143,8 +129,7 @@ package cmd
 //@   requires client != nil
 
 //@ func switchCmd.RunE
-//@   requires clientWF()
-//@   requires [args] forall i int :: 0 <= i && i < len(args) ==> true
+//@   requires clientWF() && cmd != nil
 
 //@ func updateRefCmd.PreRunE
 //@   returns err
@@ -152,8 +137,7 @@ package cmd
 //@   requires client != nil
 
 //@ func updateRefCmd.RunE
-//@   requires clientWF()
-//@   requires [args] forall i int :: 0 <= i && i < len(args) ==> true
+//@   requires clientWF() && cmd != nil
 
 //@ func writeTreeCmd.PreRunE
 //@   returns err
@@ -161,8 +145,7 @@ package cmd
 //@   requires client != nil
 
 //@ func writeTreeCmd.RunE
-//@   requires clientWF()
-//@   requires [args] forall i int :: 0 <= i && i < len(args) ==> true
+//@   requires clientWF() && cmd != nil
 
 //@ func initCmd.PreRunE
 //@   returns err
@@ -180,7 +163,7 @@ package cmd
 
 //@ func add
 //@   returns err
-//@   modifies Index.Entries, Index.Header, fs
+//@   modifies store.Index.Entries, store.Index.Header, fs
 //@   requires index != nil && store.wfIndex(index)
 //@   ensures [wf] {C04,C06} store.wfIndex(index)
 
@@ -197,14 +180,14 @@ package cmd
 
 //@ func resetHead
 //@   returns err
-//@   modifies Head.Commit, branch.hash, fs, $rdpos, $hashdata, $screst, $sctok
+//@   modifies store.Head.Commit, store.branch.hash, fs, $rdpos, $hashdata, $screst, $sctok
 //@   requires logRecord != nil && len(logRecord.Hash) >= 20 && head != nil && head.Commit != nil && head.Commit.Object != nil && refs != nil && store.wfRefs(refs) && conf != nil && gLogger != nil
 //@   ensures [wf] store.wfRefs(refs)
 //@   ensures [head-same] {C08} head.Reference == old(head.Reference)
 
 //@ func resetIndex
 //@   returns err
-//@   modifies Index.Entries, Index.Header, fs, $rdpos, $hashdata, $screst, $sctok
+//@   modifies store.Index.Entries, store.Index.Header, fs, $rdpos, $hashdata, $screst, $sctok
 //@   requires logRecord != nil && len(logRecord.Hash) >= 1 && index != nil && store.wfIndex(index)
 //@   ensures [disk-only] {C08} sameExcept(fs, old(fs), store.indexPath(rootGoitPath))
 
@@ -215,7 +198,7 @@ package cmd
 
 //@ func restoreIndex
 //@   returns err
-//@   modifies Index.Entries, Index.Header, fs
+//@   modifies store.Index.Entries, store.Index.Header, fs
 //@   requires index != nil && store.wfIndex(index) && tree != nil && object.treeWF(tree.Children) && len(path) <= 65535
 //@   ensures [wf] {C09} store.wfIndex(index)
 //@   ensures [disk-only] {C09} sameExcept(fs, old(fs), store.indexPath(rootGoitPath))
@@ -240,7 +223,7 @@ package cmd
 
 //@ func commit
 //@   returns err
-//@   modifies Refs.Heads, branch.hash, Head.Reference, Head.Commit, fs, $rdpos, $hashdata, $screst, $sctok
+//@   modifies store.Refs.Heads, store.branch.hash, store.Head.Reference, store.Head.Commit, fs, $rdpos, $hashdata, $screst, $sctok
 //@   requires index != nil && store.wfIndex(index) && head != nil && conf != nil && refs != nil && store.wfRefs(refs) && gLogger != nil
 //@   requires (head.Commit != nil ==> head.Commit.Object != nil)
 //@   requires (head.Commit == nil ==> forall i int :: 0 <= i && i < len(refs.Heads) ==> refs.Heads[i].Name != head.Reference)
